@@ -334,10 +334,15 @@ func runC19(c *core.Ctx) {
 			if !isR {
 				return
 			}
-			b, isB := core.RetVals(r)[0].(*ssa.BinOp)
-			if !isB || !core.IsIntConst(b.Y, 0) {
+			// `cmp(...) > 0`, also written `0 < cmp(...)`
+			bm, isB := core.AsCmp(core.Cond{V: core.Resolve(core.RetVals(r)[0]), True: true})
+			if !isB || !core.IsIntConst(bm.Y, 0) {
 				return
 			}
+			b := struct {
+				Op token.Token
+				X  ssa.Value
+			}{bm.Op, bm.X}
 			call, isC := b.X.(*ssa.Call)
 			if !isC || core.Callee(&call.Call) != cmpFn {
 				return
